@@ -1376,6 +1376,8 @@ impl Recv {
 
             // Create the RST_STREAM frame
             let frame = frame::Reset::new(stream_id, Reason::REFUSED_STREAM);
+            #[cfg(feature = "verif-hooks")]
+            crate::verif::ev("disp.send_refusal", || vec![u32::from(stream_id) as i64]);
 
             // Buffer the frame
             dst.buffer(frame.into()).expect("invalid RST_STREAM frame");
@@ -1397,6 +1399,10 @@ impl Recv {
                 // monotonic). We use a saturating operation to avoid this panic here.
                 now.saturating_duration_since(reset_at) > reset_duration
             }) {
+                #[cfg(feature = "verif-hooks")]
+                crate::verif::ev("disp.expire", || {
+                    vec![stream.verif_serial, u32::from(stream.id) as i64]
+                });
                 counts.transition_after(stream, true);
             }
         }
@@ -1785,5 +1791,20 @@ impl Recv {
 
     pub(super) fn verif_pending_recv_len(&self, stream: &Stream) -> usize {
         stream.pending_recv.verif_len(&self.buffer)
+    }
+}
+
+#[cfg(feature = "verif-hooks")]
+impl Recv {
+    /// `[next_stream_id (-1 = overflowed), max_stream_id, refused (-1 = none)]` (verification hook, read-only).
+    pub(super) fn verif_disp_ids(&self) -> [i64; 3] {
+        [
+            match self.next_stream_id {
+                Ok(id) => u32::from(id) as i64,
+                Err(_) => -1,
+            },
+            u32::from(self.max_stream_id) as i64,
+            self.refused.map(|id| u32::from(id) as i64).unwrap_or(-1),
+        ]
     }
 }
